@@ -150,8 +150,6 @@ class Tracer(object):
                     ev["at"] = ev["at"][: n + j + 1]          # the dict as it was right after this assignment
 
     def emit(self, op, s=0, c=0, r=0, d=(), k="", ns="", n=(), a=(), p=NONE, q=NONE, exc="", hc=False, polled=False):
-        if not polled:
-            self.poll()
         node = c if op in ("new", "clone") else s
         ev = {"op": op, "s": s, "c": c, "r": r, "d": list(d), "k": k, "ns": ns, "n": list(n), "a": list(a), "p": list(p), "q": list(q),
               "exc": exc, "hc": bool(hc), "row": [], "row2": [], "at": [], "par": 0}
@@ -212,6 +210,8 @@ def install():
         def method(self, *a, **kw):
             if not T.on or T.kind != kind:
                 return orig(self, *a, **kw)
+            if T.depth == 0:
+                T.poll()                 # attribute writes since the last call are logged before this call takes effect
             T.depth += 1
             try:
                 rv = orig(self, *a, **kw)
